@@ -547,16 +547,17 @@ def ambient_leg(c, rng, wd, nruns):
     c.sample({'kind': 'ambient', 'trace': traces[0][:6]})
 
 
-def ambient_lifecycle_leg(c):
+def ambient_lifecycle_leg(c, late=False):
     """deep.start() through the public entry point, a hit, shutdown() in a fresh interpreter in which the application has
-    configured its own logging: what changed across each call is validated by Trace_Ambient, and the application's log
-    file must have received the application's records (and only those at its level)."""
+    configured its own logging (late: it does so AFTER deep.start(), as an application that attaches the agent first thing
+    does): what changed across each call is validated by Trace_Ambient, and the application's log file must have received
+    the application's records (and only those at its level)."""
     import json
     import os
     import subprocess
     import sys
-    p = subprocess.run([sys.executable, '-m', 'harness.ambient_start'], cwd=tlc.VERIF, env=dict(os.environ),
-                       stdout=subprocess.PIPE, stderr=subprocess.PIPE, timeout=180)
+    p = subprocess.run([sys.executable, '-m', 'harness.ambient_start'] + (['late'] if late else []), cwd=tlc.VERIF,
+                       env=dict(os.environ), stdout=subprocess.PIPE, stderr=subprocess.PIPE, timeout=180)
     res = None
     for line in p.stdout.decode('utf-8', 'replace').split('\n'):
         if line.startswith('RESULT '):
@@ -569,7 +570,7 @@ def ambient_lifecycle_leg(c):
     c.states += r.distinct
     c.transitions += r.generated
     c.traces_validated += 1
-    c.note_case(key=('ambient-lifecycle',), nontrivial=True)
+    c.note_case(key=('ambient-lifecycle', late), nontrivial=True)
     problems = []
     if 0 not in accepted:
         at = progress.get(0, 2)
@@ -694,6 +695,7 @@ def run(c):
                           'deviation DrawsFromGlobalPRNG', what='AgentLeavesAmbientStateAlone')
     ambient_leg(c, rng, wd, 4 if quick else 60)
     ambient_lifecycle_leg(c)
+    ambient_lifecycle_leg(c, late=True)
 
 
 if __name__ == '__main__':
